@@ -131,10 +131,10 @@ class Summarizer:
             if it[0] == "var":
                 it = it[2]
             clo = strip(args[1])
-            if it[0] == "call" and it[1] == CHARS and clo[0] == "closure":
+            if it[0] == "call" and it[1] == CHARS and clo[0] in ("closure", "fn") and clo[1] in self.facts.bodies:
                 cf = self.summary(clo[1], depth + 1)
-                # closure params: arg1 = env, arg2 = the char
-                cf = subst_formula(cf, {2: CPARAM})
+                # closure params: arg1 = env, arg2 = the char ; fn item: arg1 = the char
+                cf = subst_formula(cf, {2 if clo[0] == "closure" else 1: CPARAM})
                 return ("all" if path in ALL_CALLS else "any", it[2][0], cf)
             raise AnchorError("Iterator::all/any over something other than str::chars with a local closure: %s" % nshow(it), body.key)
         if isinstance(path, str) and path in self.facts.bodies and self.facts.fns.get(path, {}).get("output") == "bool":
@@ -221,6 +221,19 @@ def bits_cached(name, pred):
     if name not in _sets:
         _sets[name] = bits(pred)
     return _sets[name]
+
+
+def range_bits(lo, hi):
+    if hi < lo:
+        return 0
+    return (((1 << (hi - lo + 1)) - 1) << lo) & universe()
+
+
+def pred_formula(facts, summ, key):
+    """Formula over CPARAM of a char predicate given as closure (param = arg2) or as fn item (param = arg1)."""
+    f = summ.summary(key)
+    idx = 2 if facts.bodies[key].kind == "closure" else 1
+    return subst_formula(f, {idx: CPARAM})
 
 
 def ascii_bits(pred):
@@ -364,6 +377,16 @@ def charset(f, facts=None):
                 for c in cs:
                     v |= 1 << c
                 return v
+        if name in ("binop:Le", "binop:Lt", "binop:Ge", "binop:Gt") and len(args) == 2:
+            op = name.split(":")[1]
+            if args[1] == CPARAM and const_chars(args[0]) and len(const_chars(args[0])) == 1:
+                k = const_chars(args[0])[0]   # k op c
+                lo, hi = {"Le": (k, MAXC - 1), "Lt": (k + 1, MAXC - 1), "Ge": (0, k), "Gt": (0, k - 1)}[op]
+                return range_bits(lo, hi)
+            if args[0] == CPARAM and const_chars(args[1]) and len(const_chars(args[1])) == 1:
+                k = const_chars(args[1])[0]   # c op k
+                lo, hi = {"Le": (0, k), "Lt": (0, k - 1), "Ge": (k, MAXC - 1), "Gt": (k + 1, MAXC - 1)}[op]
+                return range_bits(lo, hi)
         if name in ("binop:Eq", "binop:Ne") and len(args) == 2:
             other = args[1] if args[0] == CPARAM else args[0] if args[1] == CPARAM else None
             if other is not None:
